@@ -15,6 +15,24 @@ use std::path::Path;
 use maplit::btreeset;
 use structopt::StructOpt;
 
+/// Whether two paths name one file: the same path once links are followed, or two names (hard
+/// links) of one file
+fn same_file(a: &Path, b: &Path) -> bool {
+    if let (Ok(x), Ok(y)) = (a.canonicalize(), b.canonicalize()) {
+        if x == y {
+            return true;
+        }
+    }
+    #[cfg(unix)]
+    {
+        use std::os::unix::fs::MetadataExt;
+        if let (Ok(x), Ok(y)) = (std::fs::metadata(a), std::fs::metadata(b)) {
+            return x.dev() == y.dev() && x.ino() == y.ino();
+        }
+    }
+    false
+}
+
 fn main() {
     let opt = Opt::from_args();
 
@@ -29,9 +47,8 @@ fn main() {
     let mut failed = false;
 
     // an output file must not be the source itself
-    let source_path = opt.source.canonicalize().ok();
     for output in [&opt.output, &opt.eeprom].iter().filter_map(|x| x.as_ref()) {
-        if source_path.is_some() && output.canonicalize().ok() == source_path {
+        if same_file(output, &opt.source) {
             println!(
                 "Failed to build file {}: output file {} is the source file",
                 file_name,
@@ -71,7 +88,7 @@ fn main() {
                 };
 
                 match write_code_hex(outpath.clone(), &built) {
-                    Ok(()) => code_path = outpath.canonicalize().ok(),
+                    Ok(()) => code_path = Some(outpath),
                     Err(e) => {
                         failed = true;
                         println!(
@@ -107,7 +124,7 @@ fn main() {
                     source_parent
                 };
 
-                if code_path.is_some() && code_path == outpath.canonicalize().ok() {
+                if code_path.map_or(false, |code_path| same_file(&code_path, &outpath)) {
                     failed = true;
                     println!(
                         "Failed to write eeprom hex file for {}: {} is the file of the flash image",
